@@ -45,3 +45,4 @@ import jobs_c07  # noqa: E402,F401
 import jobs_c06  # noqa: E402,F401
 import jobs_c19  # noqa: E402,F401
 import jobs_c16  # noqa: E402,F401
+import jobs_c10  # noqa: E402,F401
